@@ -1,6 +1,6 @@
 (* LiveProofs.v — liveness: a fresh, matching stored response is served from the store (C09). *)
 From HC Require Import Transport Run Spec SpecMon.
-From HC.Proofs Require Import HeaderProofs FreshProofs DecisionProofs VaryProofs RunProofs.
+From HC.Proofs Require Import HeaderProofs FreshProofs DecisionProofs VaryProofs RunProofs IndexProofs.
 From Coq Require Import ZifyBool.
 Open Scope Z_scope.
 
@@ -208,4 +208,43 @@ Proof.
   rewrite Hnn, Hv, Hn. cbn [run]. cbn [w_store log_event set_store]. rewrite He.
   unfold handle_cache_hit. cbn [run]. cbn [w_clock log_event set_store]. rewrite Hdec. cbn [run].
   eexists _, _. split; [reflexivity|]. cbn. repeat split; reflexivity.
+Qed.
+
+(* ---------- store, then reuse ---------- *)
+(* Once StoreResponse has run for (q, r) under a key without an index, every later world in which the index of that
+   key and the entry are still what it wrote answers a request q' for the same key, which the written reference
+   matches and for which the decision is to serve, from the store: no origin call, r's status and body. *)
+Theorem store_then_hit q q' r k a b w r1 w1 resolved :
+  make_url_key (q_url q') = k -> is_request_method_understood q' = true ->
+  normalize_vary (join [44] (hvalues (bs "Vary") (remove_hop_by_hop (p_hdr r)))) (q_hdr q) = Some resolved ->
+  p_body_ok r = true ->
+  run None (store_response q r k [] a b (-1)) w = (Done r1, w1) ->
+  let rs := with_hdr r (remove_hop_by_hop (p_hdr r)) in
+  let id := make_vary_key k resolved in
+  let e := entry_of id rs a b in
+  let nr := {| r_id := id; r_vary := join [44] (hvalues (bs "Vary") (p_hdr rs)); r_resolved := resolved; r_recv := date_header (p_hdr rs) |} in
+  r1 = rs /\
+  forall w2, get_refs (w_store w2) k = get_refs (w_store w1) k -> get_entry (w_store w2) id = get_entry (w_store w1) id ->
+    ref_matches nr (q_hdr q') = Some true -> decide_hit q' e (w_clock w2) = DServe ->
+    exists w3 out, run None (round_trip q') w2 = (Done (OResp out), w3) /\
+      w_calls w3 = w_calls w2 /\ w_clock w3 = w_clock w2 /\ w_store w3 = w_store w2 /\
+      p_status out = p_status r /\ p_body out = p_body r.
+Proof.
+  intros Hk Hm Hv Hb Hrun rs id e nr.
+  unfold store_response in Hrun. cbn [p_hdr with_hdr p_body_ok] in Hrun. rewrite Hv, Hb in Hrun.
+  cbn [run] in Hrun. injection Hrun as <- <-. split; [reflexivity|].
+  cbn [w_store set_store].
+  intros w2 Hrefs Hent Hmatch Hdec.
+  assert (Hg : get_refs (w_store w2) k = Some [Some nr]).
+  { rewrite Hrefs. rewrite get_refs_aset_same. change ((-1 <? 0) || (Z.of_nat (List.length (@nil (option ref))) <=? -1)) with true. cbv iota.
+    cbn [app]. unfold unique_refs. cbn [rev app unique_refs_rev in_names existsb]. reflexivity. }
+  assert (He : get_entry (w_store w2) id = Some e).
+  { rewrite Hent. rewrite get_entry_aset_other by apply vary_key_neq. apply get_entry_aset_same. }
+  destruct (run_hit q' w2 [Some nr] [nr] 0 nr e) as (w3 & out & Hr & Hc & Hcl & Hs & Hst & Hbo); try assumption.
+  - rewrite Hk. exact Hg.
+  - cbn. discriminate.
+  - cbn [drop_nil_refs strip_refs]. unfold vary_headers_match, sort_refs. cbn [isort find_match].
+    cbn. rewrite Hmatch. reflexivity.
+  - reflexivity.
+  - exists w3, out. repeat split; assumption.
 Qed.
